@@ -103,6 +103,14 @@ def run(ctx):
         data = np.column_stack([X, np.arange(N)])        # hidden third column = event index
         bkind = str(rng.choice(['count', 'edges', 'mixed', 'one-array']))
         bins = make_bins(rng, X, bkind)
+        if bkind == 'edges' and N >= 6 and rng.random() < 0.25:
+            # special values among the events (explicit grid): NaN and +/-inf lie outside every grid and are never kept;
+            # an event exactly on the outermost edge is inside (closed last bin)
+            for _ in range(int(rng.integers(1, 4))):
+                data[int(rng.integers(N)), int(rng.integers(2))] = [np.nan, np.inf, -np.inf][int(rng.integers(3))]
+            j = int(rng.integers(2))
+            data[int(rng.integers(N)), j] = bins[j][-1] if rng.random() < 0.5 else bins[j][0]
+            ekind += '+special'
         r = rng.random()
         if r < 0.1:
             f = 0.0
